@@ -478,6 +478,61 @@ class Examiner:
         return res
 
 
+def concurrent_compiles(run, ex) -> None:
+    """ONE evaluator object used by two threads at once (a shared default evaluator, a web worker pool): thread A keeps
+    compiling an expression that declares ``q``; thread B compiles, with only ``x`` declared, expressions that read ``q``
+    - every one of B's compiles must be refused, whatever A is doing.  Real threads under a 1 us switch interval; the
+    oracle is exact (the predicate on B's own names), the interleavings are whatever the run produced (counted)."""
+    import threading
+
+    ev = ex.safe_eval.ExpressionEvaluator()
+    stop = threading.Event()
+    accepted = []
+    counts = {"a": 0, "b": 0}
+
+    def thread_a():
+        while not stop.is_set():
+            try:
+                ev.compile("max(x, q) + q * 2", {"x", "q"})
+            except Exception:
+                pass
+            counts["a"] += 1
+
+    def thread_b():
+        srcs = ["(x, str(q))", "x + q", "max(x, key=q)", "x if q else x"]
+        k = 0
+        while not stop.is_set() and counts["b"] < 6000:
+            src = srcs[k % len(srcs)]
+            k += 1
+            try:
+                ev.compile(src, {"x"})
+                accepted.append(src)
+            except ex.ExpressionError:
+                pass
+            except Exception:
+                pass
+            counts["b"] += 1
+        stop.set()
+
+    old = sys.getswitchinterval()
+    sys.setswitchinterval(1e-6)
+    try:
+        ta, tb = threading.Thread(target=thread_a, daemon=True), threading.Thread(target=thread_b, daemon=True)
+        ta.start(), tb.start()
+        tb.join(timeout=60)
+        stop.set()
+        ta.join(timeout=10)
+    finally:
+        sys.setswitchinterval(old)
+    run.count("concurrent_compiles_thread_a", counts["a"])
+    run.count("concurrent_compiles_thread_b", counts["b"])
+    if accepted:
+        ex.violate("undeclared_name_accepted_under_concurrent_compile",
+                   f"an evaluator shared by two threads accepted {accepted[0]!r} with only 'x' declared while another thread was compiling an "
+                   f"expression that declares 'q' ({len(accepted)} of {counts['b']} compiles)",
+                   {"expr": accepted[0], "names": ["x"], "class": "concurrent", "meta": {"other_thread_declares": ["x", "q"]}, "assignments": []})
+
+
 def wrong_exception_key(offs, exc):
     """Mechanism key for "compile raised something that is not ExpressionError" (offs None = own parser refused)."""
     if isinstance(exc, SyntaxError) and offs and all(o["in_kw"] for o in offs):
@@ -698,6 +753,8 @@ def run(run):
                 ex.examine(shape.format(v=v_), "history", {"variable_named_like_implementation_identifier": v_})
         ex.assignments = saved_assignments
         ex.names = frozenset({"x", "y"})
+        if i_sh == 0:
+            concurrent_compiles(run, ex)
         ex.ev = ex.safe_eval.ExpressionEvaluator()      # a default evaluator created AFTER that history
         for f in extra:
             ex.examine(f"{f}(x)", "history", {"fresh_default_evaluator_after_extra_funcs": f})
